@@ -22,6 +22,23 @@ def res_mt(st, j):
     return (j or {}).get("mediaType") or ((st["impl"].get("headers") or {}).get("Content-Type") or [""])[0]
 
 
+def resurrected_by_restart(case, io, k, repo, digest):
+    """[digest] was deleted by digest, and at a later restart an index that lists it was still there: the child list rebuilt from
+    the directory names it again (finding F52), and it stays until it is deleted by digest once more"""
+    import c10
+    back = False
+    for j in range(k):
+        st, r = case["steps"][j], io["steps"][j]
+        if st["kind"] == "restart":
+            if c10.deleted_child_of_live_index(case, io, j, repo, digest):
+                back = True
+        elif st.get("repo") == repo and st["kind"] == "mdel" and r.get("status") == 202 and st["arg"] == digest:
+            back = False
+        elif st.get("repo") == repo and st["kind"] == "mput" and r.get("status") == 201 and (r.get("headers") or {}).get("Docker-Content-Digest", [""])[0] == digest:
+            back = False
+    return back
+
+
 def oracle(ctx, case, io):
     tagmap = {}
     present = {}
@@ -70,11 +87,19 @@ def oracle(ctx, case, io):
                     ctx.violation("tag %s does not resolve to the manifest last pushed under it (got %s %s, want %s)"
                                   % (st["arg"], res["status"], o.get("digest"), want), hist(), "C03:tag-lww")
             elif gen.dvalid_py(st["arg"]):
+                restarted = any(x["kind"] == "restart" for x in case["steps"][:k])
                 if st["arg"] in pr and res["status"] != 200:
+                    # (after a restart: a manifest that only the in-memory child list recorded - its index.json entry moved there when
+                    #  an index listing it was pushed - is gone once that index was deleted: finding F35)
+                    import c10
+                    sig = "C03:digest-lost-child-of-deleted-index-after-restart" if (restarted and c10.parents_deleted(case, io, k, repo, st["arg"])) else "C03:digest-lost"
                     ctx.violation("manifest %s not addressable by digest (%s) although pushed and not deleted by digest"
-                                  % (st["arg"][:19], res["status"]), hist(), "C03:digest-lost")
+                                  % (st["arg"][:19], res["status"]), hist(), sig)
                 elif st["arg"] not in pr and res["status"] == 200:
-                    ctx.violation("manifest %s addressable after its deletion by digest" % st["arg"][:19], hist(), "C03:digest-ghost")
+                    # (after a restart: the child list is rebuilt from the indexes that still list the deleted manifest: finding F52)
+                    import c10
+                    sig = "C03:digest-ghost-deleted-child-of-live-index-after-restart" if (restarted and resurrected_by_restart(case, io, k, repo, st["arg"])) else "C03:digest-ghost"
+                    ctx.violation("manifest %s addressable after its deletion by digest" % st["arg"][:19], hist(), sig)
         elif kind == "tags":
             if res["status"] != 200:
                 ctx.violation("tag listing answered %s (n=%r last=%r)" % (res["status"], st["n"], st["last"]), hist(), "C03:list-status")
@@ -115,8 +140,26 @@ def oracle(ctx, case, io):
 
 def make_cases(ctx, first):
     n, steps = (400, 45) if ctx.tier == "quick" else (12000, 60)
-    confs = [mkconf(store="mem"), mkconf(store="dir"), mkconf(store="mem", referrer=False), mkconf(store="dir", blobdelete=False)]
-    return apicheck.std_cases(ctx, first, n, steps, confs, profile=PROFILE)
+    # (Close() of the directory store collects every open repository; withsubj=False keeps that collection from removing anything
+    #  these histories read afterwards: what a collection may remove is C05 / C06's)
+    confs = [mkconf(store="mem"), mkconf(store="dir", withsubj=False), mkconf(store="mem", referrer=False), mkconf(store="dir", blobdelete=False, withsubj=False)]
+    cases = []
+    for i in range(n):
+        conf = confs[i % len(confs)]
+        w = gen.World(ctx.rng, conf, profile=PROFILE)
+        w.run(steps // 2)
+        if conf["store"] == "dir" and ctx.rng.random() < 0.6:
+            # tags, and their deletion, are on disk: the listing and every tag answer the same after the server was restarted
+            for r_ in w.repos:
+                w.walk_tags(r_)
+            w.add(restart_step())
+            for r_ in w.repos:
+                w.walk_tags(r_)
+            w.probe()
+        w.run(len(w.steps) + steps // 2)
+        w.probe()
+        cases.append(dict(id=first + i, conf=conf, steps=w.steps, contents=sorted(w.contents)))
+    return cases
 
 
 def run(ctx):
